@@ -41,7 +41,8 @@ def main():
     only = sys.argv[1:]
     if os.path.exists(SCRATCH):
         subprocess.run(["git", "-C", "/repo", "worktree", "remove", "--force", SCRATCH])
-    subprocess.run(["git", "-C", "/repo", "worktree", "add", "-q", "--detach", SCRATCH, "HEAD"], check=True)
+    # MUT_BASE: the commit the defects were written against (default: HEAD)
+    subprocess.run(["git", "-C", "/repo", "worktree", "add", "-q", "--detach", SCRATCH, os.environ.get("MUT_BASE", "HEAD")], check=True)
     results = {}
     try:
         for d in sorted(glob.glob(SRC + "/C*/m*")):
@@ -93,7 +94,7 @@ def main():
                 mm_ = re.search(r"(?is)(manifest|trigger|needs)[^\n]*\n(.{0,600})", ntext)
                 meta = {"id": mid, "breaks_property": prop,
                         "needs_to_manifest": "see notes.md (written by the independent sub-agent that seeded the defect)",
-                        "confirmed_by": "tools/confirm_mutants.py in scratch worktree /tmp/mutscratch of /repo HEAD",
+                        "confirmed_by": "tools/confirm_mutants.py in scratch worktree /tmp/mutscratch of /repo %s" % os.environ.get("MUT_BASE", "HEAD"),
                         "ran": {"suite_with_patch": "cargo test --offline -> %s passed" % "+".join(passed),
                                 "hook_build_with_patch": rec["hook_build_ok"],
                                 "demo": {k: {kk: vv for kk, vv in v.items() if kk in ("cmd", "fails_with_patch", "passes_without_patch")} for k, v in rec["demo"].items()}},
